@@ -553,39 +553,56 @@ structure TermState where
 
 def addAt (l : List Nat) (i : Nat) : List Nat := l.modify i (· + 1)
 
+/-- `code.decoder[j]` as used by `extractor(code.decoder[j])` -/
+def decoderEntry (c : Code) (j : Nat) : Except Err Poly :=
+  match c.dec[j]? with
+  | none => Except.error Err.indexError
+  | some .int0 => Except.error Err.attributeError
+  | some (.poly p) => pure p
+
+/-- `parity_list[j]` -/
+def parityEntry (plist : List Poly) (j : Nat) : Except Err Poly :=
+  match plist[j]? with
+  | none => Except.error Err.indexError
+  | some p => pure p
+
+/-- `QubitOperator((), 0.5) - extracted` -/
+def factorOp (ex : QV) : Op :=
+  match ex with
+  | .num x => addConst [([], half)] (-x)
+  | .op o => isub tol [([], half)] o
+
 /-- the loop body over `reversed(term)` -/
 def bctFactor (c : Code) (plist : List Poly) (st : TermState) (f : Nat × Nat) : Except Err TermState := do
   let count := (st.seen.filter (· == f.1)).length
   let parity := st.parity + (st.seen.filter (· < f.1)).length
-  let entry ← match c.dec[f.1]? with
-    | none => Except.error Err.indexError
-    | some .int0 => Except.error Err.attributeError
-    | some (.poly p) => pure p
+  let entry ← decoderEntry c f.1
   let ex ← extractor tol entry
-  let ex := ex.mul (.num (GQ.sgn count * GQ.sgn f.2 * half))
-  let factor : Op := match ex with
-    | .num x => addConst [([], half)] (-x)
-    | .op o => isub tol [([], half)] o
+  let factor := factorOp tol (ex.mul (.num (GQ.sgn count * GQ.sgn f.2 * half)))
   let transformed := mulOp .qubit st.transformed factor
   -- `changed_occupation_vector[j] += 1` (IndexError already raised above when out of range)
-  let pl ← match plist[f.1]? with
-    | none => Except.error Err.indexError
-    | some p => pure p
+  let pl ← parityEntry plist f.1
   pure ⟨st.seen ++ [f.1], parity, iadd st.parityTerm pl, addAt st.changed f.1, transformed⟩
+
+/-- `transformed_term *= extractor(parity_term)` -/
+def parityFinish (t1 : Op) (q : QV) : Op :=
+  match q with
+  | .num x => smul x t1
+  | .op o => mulOp .qubit t1 o
+
+/-- the update operator: `X_index` for every odd entry of `numpy.mod(code.encoder.dot(changed), 2)` -/
+def updateOp (cq : List Nat) : Op :=
+  (cq.zipIdx).foldl (fun (u : Op) (qi : Nat × Nat) =>
+    if qi.1 != 0 then mulOp .qubit u [([(qi.2, 1)], 1)] else u) [([], 1)]
 
 /-- one term of the Hamiltonian: `term_coefficient * update_operator * transformed_term` -/
 def bctTerm (c : Code) (plist : List Poly) (term : Term) (coef : GQ) : Except Err Op := do
   let st ← term.reverse.foldlM (bctFactor tol c plist)
     ⟨[], 0, [], zeros c.nm, [([], 1)]⟩
   let t1 := mulOp .qubit st.transformed [([], GQ.sgn st.parity)]
-  let t2 ← match (← extractor tol st.parityTerm) with
-    | .num x => pure (smul x t1)
-    | .op o => pure (mulOp .qubit t1 o)
-  let cq := encode c st.changed
-  let upd := (cq.zipIdx).foldl (fun (u : Op) (q, i) =>
-    if q != 0 then mulOp .qubit u [([(i, 1)], 1)] else u) [([], 1)]
+  let q ← extractor tol st.parityTerm
   -- `term_coefficient * update_operator * transformed_term`
-  pure (mulOp .qubit (smul coef upd) t2)
+  pure (mulOp .qubit (smul coef (updateOp (encode c st.changed))) (parityFinish t1 q))
 
 /-- `SymbolicOperator.compress()` -/
 def compress (o : Op) : Op :=
